@@ -492,3 +492,66 @@ def index_domain(ctx):
                                 "m/0/4294967295 (= 2147483647', the last child number, which BIP32 test vector 2 passes through) cannot be derived")
                     break
         ctx.saw('%s: %d raising path(s), none decided by a child number of its domain' % (name, n))
+
+
+_DEPTH_FIXTURE = """
+def bad(depth):
+    if not 0 <= depth < 0xff:
+        raise ValueError('depth')
+
+def good(depth):
+    if not 0 <= depth <= 255:
+        raise ValueError('depth')
+    if depth > 255:
+        raise ValueError('depth')
+
+def unrelated(depth, key):
+    if not key:
+        raise ValueError('key')
+"""
+
+
+def _depth_refusals(fn, names=('depth', 'self.depth')):
+    """[(If node, refused value)] for raises guarded by a test that reads only the depth and is true for a depth of 0..255"""
+    out = []
+    for n in ast.walk(fn):
+        if not (isinstance(n, ast.If) and any(isinstance(x, ast.Raise) for x in n.body)):
+            continue
+        free = set(norm(x) for x in ast.walk(n.test) if isinstance(x, ast.Name) and x.id != 'self') | set(norm(x) for x in ast.walk(n.test) if isinstance(x, ast.Attribute))
+        free = set(f for f in free if f not in ('self',))
+        if not free or not free <= set(names):
+            continue
+        for v in (0, 1, 254, 255):
+            src = norm(n.test)
+            try:
+                r = eval(compile(ast.Expression(ast.parse(src.replace('self.depth', 'depth'), mode='eval').body), '<depth>', 'eval'), {'__builtins__': {}}, {'depth': v})
+            except Exception:
+                r = None
+            if r:
+                out.append((n, v))
+                break
+    return out
+
+
+@PROP.obligation('C03.depth-domain', canaries=[
+    mut.insert_before('keys', 'HDKey.__init__', 'if witness_type is None:', "if not 0 <= depth < 0xff:\n    raise BKeyError('Invalid depth')", 'depth 255 refused'),
+])
+def depth_domain(ctx):
+    """The depth of an extended key is one byte: 0 .. 255 are all valid (a 255-level path is derivable and its keys import). No raise of
+    HDKey.__init__ / child_private / child_public / subkey_for_path is decided by the depth alone for a depth of 0, 1, 254 or 255."""
+    res = {f.name: [v for _, v in _depth_refusals(f)] for f in ast.parse(_DEPTH_FIXTURE).body}
+    if res != {'bad': [255], 'good': [], 'unrelated': []}:
+        raise AnalysisError('depth-domain fixture classified %s' % res)
+    ctx.saw('depth-domain self-test on the embedded fixture: %s' % res)
+    n = 0
+    for name in ('__init__', 'child_private', 'child_public', 'subkey_for_path', 'wif', 'from_seed'):
+        q = 'keys:HDKey.' + name
+        try:
+            fn = ctx.repo.func(q)
+        except Exception:
+            ctx.undecided('%s vanished' % q)
+        n += 1
+        for node, v in _depth_refusals(fn):
+            ctx.violate(q, 'an extended key of depth %d is refused (`%s`)' % (v, norm(node.test)[:60]), node,
+                        'a key at depth 254 cannot produce its children and a valid depth-255 xprv / xpub cannot be imported: the path stops one level short of what BIP32 serialises')
+    ctx.floor(n, 6, 'HDKey methods')
